@@ -261,3 +261,27 @@ PROPS['C11'] = dict(
             'converts labels to float32); SafetyChecker warping',
     assumptions=['comparison-only data dependence of the numeric Pareto routines (read off the code)'],
     obligations=_pareto_obls())
+
+_SYM = {'PB_BACKEND': 'sym'}
+_SYMFF = {'PB_BACKEND': 'sym', 'VERIF_FINITE_FLOATS': '1'}
+PROPS['C09'] = dict(
+    level='model_checking',
+    encoded=['proto_converters.ParameterConfigConverter/ParameterValueConverter/MeasurementConverter/'
+             'MetricInformationConverter/TrialConverter/TrialSuggestionConverter/MetadataDeltaConverter/SuggestConverter',
+             'oss.StudyConfig.to_proto/from_proto', 'metadata_util.*', 'automated_stopping'],
+    bounds='symbolic leaves: bounds/defaults/metric values all reals (nan/inf where admitted), ints unbounded, strings <= 1-2 '
+           'chars, <= 3 feasible values, <= 2 metrics, conditional depth <= 2, times from {0,1,500000,999999} microseconds',
+    outside='float rounding of the seconds/nanos split; search spaces deeper than 2 levels; symbolic datetimes',
+    assumptions=['protobuf runtime = env/symproto model (validated per path on upb and by the setup self-test)'],
+    obligations=[
+        O('C09.config_double', 'harness.c09_wire', 'config_double', 150, 600, 'DOUBLE ParameterConfig round trip incl. default 0.0 and scale types', env=_SYM),
+        O('C09.config_integer', 'harness.c09_wire', 'config_integer', 90, 600, 'INTEGER ParameterConfig round trip incl. default 0', env=_SYM),
+        O('C09.config_discrete', 'harness.c09_wire', 'config_discrete', 300, 900, 'DISCRETE ParameterConfig round trip', env=_SYMFF),
+        O('C09.config_categorical', 'harness.c09_wire', 'config_categorical', 120, 600, 'CATEGORICAL/boolean ParameterConfig round trip incl. default ""', env=_SYM),
+        O('C09.config_conditional', 'harness.c09_wire', 'config_conditional', 300, 1200, 'conditional search space of depth 1..2 survives', env=_SYMFF),
+        O('C09.measurement', 'harness.c09_wire', 'measurement', 150, 600, 'Measurement round trip, elapsed time to the microsecond', env=_SYM),
+        O('C09.metric_information', 'harness.c09_wire', 'metric_information', 90, 600, 'MetricInformation incl. safety config', env=_SYM),
+        O('C09.trial', 'harness.c09_wire', 'trial_roundtrip', 300, 1500, 'Trial round trip for every status, all parameter kinds, creation/completion times', env=_SYMFF),
+        O('C09.suggestion_and_delta', 'harness.c09_wire', 'suggestion_and_delta', 300, 900, 'SuggestDecision with TrialSuggestion + MetadataDelta', env=_SYMFF),
+        O('C09.study_config', 'harness.c09_wire', 'study_config_roundtrip', 300, 900, 'oss.StudyConfig incl. algorithm, noise, stopping spec, metadata', env=_SYMFF),
+    ])
